@@ -681,7 +681,12 @@ func (x *World) Exec(i int, op Op) map[string]interface{} {
 			var got interface{}
 			route := op.Api
 			if op.R > 3 {
-				route = "Resources.Get"
+				// only the first four resource types have static Go types for the generic routes
+				if route == "generic.Resource.Has" || route == "Resources.Has" {
+					route = "Resources.Has"
+				} else {
+					route = "Resources.Get"
+				}
 			}
 			isNil := false
 			switch route {
@@ -777,6 +782,16 @@ func (x *World) Exec(i int, op Op) map[string]interface{} {
 			}
 			args["dump"] = dumpRec(d)
 			w.LoadEntities(d)
+		})
+	case "RegisterTypes":
+		// register further (unused) component types while tables exist; no observable effect
+		args["n"] = op.N
+		res = guard(func(r *result) {
+			for k := 0; k < op.N; k++ {
+				x.lateTypes++
+				ecs.TypeID(w, makeType("filler", 40000+x.lateTypes))
+			}
+			r.ret = len(ecs.ComponentIDs(w))
 		})
 	case "GCCheck":
 		// Release check: payloads that no component references any more must become collectable.
